@@ -72,14 +72,14 @@ def list_tasks(areas: list[str], prop: str, timeout_ms: int) -> tuple[list[tuple
     for a in areas:
         world, lib, reg, lemmas = _area(a)
         for c in reg.all():
-            if prop not in c.props:
+            if prop is not None and prop not in c.props:
                 continue
             if c.trusted:
                 trusted.append({"fn": c.key, "reason": c.trusted_reason, "ensures": c.ensures, "raises": c.raises})
             else:
                 tasks.append(("fn", a, c.key, timeout_ms))
         for l in lemmas:
-            if prop in l.props:
+            if prop is None or prop in l.props:
                 tasks.append(("lemma", a, l.name, timeout_ms))
         for n in world.trusted_notes:
             trusted.append({"fn": "(area)", "reason": n})
